@@ -323,6 +323,8 @@ def rules(rep, facts):
         rep.relabel('C07/R12', 'C17/R14', '')
         from .rules_serdeflow import r_value_serializers
         r_value_serializers(rep, facts, 'C17/R15', routes=('edit',), judge='oracle')
+        from .rules_serdeflow import r_round_trip
+        r_round_trip(rep, facts, 'C17/R16', routes=('edit',))
     if 'toml' in facts.crates:
         from .rules_c16 import map_identity
         R6 = rep.rule('C17/R6', 'the decoded text equals the value whatever order the serializer emitted the entries in: equality of toml::Map is the '
